@@ -335,10 +335,14 @@ func pipeWorld(r *R) {
 	}
 }
 
-// laterSendSince reports whether some Send was in flight at or after the terminal report.
+// laterSendSince reports whether some Send was in flight at any moment from the invocation of the
+// Next call that reported the terminal onwards. ("Once no Send is in flight" the report is final; a
+// Send that overlaps that very Next call may still slip its value in behind the call's last look
+// at the buffer - in the shipped code that window holds no synchronisation operation and cannot be
+// scheduled into, but it is there, and a correct refactoring that puts a lock into it shows it.)
 func laterSendSince(sendCalls map[int]*Call, terminal *Call) bool {
 	for _, c := range sendCalls {
-		if !c.Returned || c.Ret > terminal.Ret {
+		if !c.Returned || c.Ret > terminal.Inv {
 			return true
 		}
 	}
